@@ -7,7 +7,7 @@ overlays (/repo is not modified). Every failing obligation is a false alarm of t
 Prints one line per (transformation, property) with the failing obligations; exit 1 if any."""
 import os, re, subprocess, sys, tempfile, shutil, concurrent.futures
 args = sys.argv[1:]
-ts = ["wrap", "namedbool", "invert"]; only = ""; skipfn = ""
+ts = ["wrap", "namedbool", "invert", "flipcmp", "range2index", "timeflip"]; only = ""; skipfn = ""
 while args and args[0].startswith("-"):
     if args[0] == "-t": ts = args[1].split(","); args = args[2:]
     elif args[0] == "-only": only = args[1]; args = args[2:]
@@ -29,20 +29,19 @@ for t in ts:
         r = subprocess.run(cmd, capture_output=True, text=True)
         pairs = r.stdout.strip()
         print("#", r.stderr.strip(), flush=True)
-        def one(p):
-            out = subprocess.run(["/verif/bin/sa", "-prop", p, "-no-evidence", "-overlay", pairs], capture_output=True, text=True).stdout
-            bad = [l for l in out.splitlines() if re.match(r"CONTROL-(FAIL|FLOOR)", l) and "registered-functions-stateless" not in l]
-            if "CONTROL-SUMMARY" not in out: bad.append("CONTROL-FAIL analyzer did not complete: " + out[-400:].replace("\n", " | "))
-            return p, bad
-        with concurrent.futures.ThreadPoolExecutor(6) as ex:
-            for p, bad in ex.map(one, props):
-                if bad:
-                    rc = 1
-                    print("ALARM", t, p, len(bad))
-                    for b in bad: print("    " + b[:300])
-                else:
-                    print("SILENT", t, p)
-                sys.stdout.flush()
+        # one analyzer process for all properties (the transformed program is loaded once)
+        out = subprocess.run(["/verif/bin/sa", "-prop", ",".join(props) if len(props) > 1 else props[0] + "," + props[0], "-no-evidence", "-overlay", pairs], capture_output=True, text=True).stdout
+        for p in props:
+            mine = [l[len(p) + 3:] for l in out.splitlines() if l.startswith("[%s] " % p)]
+            bad = [l for l in mine if re.match(r"CONTROL-(FAIL|FLOOR)", l) and "registered-functions-stateless" not in l]
+            if not any("CONTROL-SUMMARY" in l for l in mine): bad.append("CONTROL-FAIL analyzer did not complete: " + out[-400:].replace("\n", " | "))
+            if bad:
+                rc = 1
+                print("ALARM", t, p, len(bad))
+                for b in bad: print("    " + b[:300])
+            else:
+                print("SILENT", t, p)
+            sys.stdout.flush()
     finally:
         shutil.rmtree(tmp, ignore_errors=True)
 sys.exit(rc)
